@@ -430,6 +430,8 @@ def judge(OC, SC, info: Info, o_mod=None, s_mod=None, full=True, count=None):  #
     if "omit:A" in labs:
         targets.append(("omit:A", pats[labs.index("omit:A")][1]))
     ops = [("copy", copy.copy), ("deepcopy", copy.deepcopy)] + [("pickle", (lambda p: lambda x: pickle.loads(pickle.dumps(x, p)))(p)) for p in PICKLE_PROTOCOLS]
+    if o_mod is None:
+        ops = ops[:2]  # history mode: the decorated class is not bound to its module name, pickling by reference is not judgeable
     list_fields = [n for n, k in info.params if k == "f"]
     has_dict = _has_dict(si[0]) is True
     for lab, a, with_attr in [(lab, a, w) for lab, a in targets for w in ((False, True) if has_dict else (False,))]:
